@@ -59,6 +59,9 @@ pub fn all_kinds() -> Vec<(KindChoice, u32)> {
         (Fixed(Kind::LeafStatic), 1),
         (Fixed(Kind::SetHolder), 1),
         (Fixed(Kind::Bag), 2),
+        (Fixed(Kind::ZLeaf), 1),
+        (Fixed(Kind::CellP), 2),
+        (SwhPod, 1),
         (Slice, 2),
         (Swh, 2),
         (Lay, 2),
@@ -71,7 +74,7 @@ fn is_node(k: &KindChoice) -> bool {
 fn choice_needs_trace(k: &KindChoice) -> bool {
     match k {
         KindChoice::Fixed(k) => k.needs_trace(),
-        KindChoice::Slice | KindChoice::Swh => true,
+        KindChoice::Slice | KindChoice::Swh | KindChoice::SwhPod => true,
         _ => false,
     }
 }
